@@ -21,10 +21,36 @@ pub enum Number {
 impl Number {
     pub fn negate(&self) -> Option<Self> {
         use Number::*;
+
+        /// flip the sign of the literal's text (a literal may already carry a minus sign)
+        fn flip(x: &str) -> String {
+            if let Some(positive) = x.strip_prefix('-') {
+                positive.to_owned()
+            } else {
+                "-".to_owned() + x
+            }
+        }
+
+        /// integers have no negative zero: `-0` is `0`
+        fn flip_integer(x: &str) -> String {
+            if x.chars().all(|c| matches!(c, '0' | '_' | '-')) {
+                x.trim_start_matches('-').to_owned()
+            } else {
+                flip(x)
+            }
+        }
+
+        if let Integer(x) = self {
+            // `-x` of the smallest int is not an int: leave it to the run time, which reports the overflow
+            if x.parse::<i32>().is_ok() && flip_integer(x).parse::<i32>().is_err() {
+                return None;
+            }
+        }
+
         Some(match self {
-            Integer(x) => Integer("-".to_owned() + x),
-            BigInt(x) => Integer("-".to_owned() + x),
-            Float(x) => Float("-".to_owned() + x),
+            Integer(x) => Integer(flip_integer(x)),
+            BigInt(x) => BigInt(flip_integer(x)),
+            Float(x) => Float(flip(x)),
             Byte(_) => return None,
         })
     }
